@@ -621,6 +621,9 @@ func (streamSetSelf *StreamSetForInterfaceDef) Union(input *StreamSetForInterfac
 			}
 			v = v.(*StreamForInterfaceDef).Extend(v2.(*StreamForInterfaceDef))
 			(result.SetForInterfaceDef)[k] = v
+		} else if ok && v != nil {
+			// The other side has nothing under this key: keep our Stream (Merge took the other one)
+			(result.SetForInterfaceDef)[k] = v
 		}
 	}
 
